@@ -221,7 +221,8 @@ func unsupported(f string, a ...interface{}) {
 // lazyInitPkgs: interpreted standard-library packages whose package-level tables must hold their real
 // initial values; their initialiser is executed (own globals only) when one of their globals is first read.
 var lazyInitPkgs = map[string]bool{"unicode/utf8": true, "unicode": true, "strconv": true, "strings": true, "bytes": true,
-	"sort": true, "path": true, "math/bits": true, "encoding/hex": true, "container/heap": true, "container/list": true, "unicode/utf16": true, "encoding/base64": true, "encoding/binary": true}
+	"sort": true, "path": true, "math/bits": true, "encoding/hex": true, "container/heap": true, "container/list": true, "unicode/utf16": true, "encoding/base64": true, "encoding/binary": true,
+	"github.com/mr-tron/base58/base58": true, "github.com/multiformats/go-base32": true, "github.com/multiformats/go-base36": true, "github.com/multiformats/go-multibase": true, "encoding/base32": true, "github.com/multiformats/go-varint": true}
 
 func (in *Interp) ensurePkgInit(g *ssa.Global) {
 	if g.Pkg == nil || in.isModulePkg(g.Pkg) || !lazyInitPkgs[g.Pkg.Pkg.Path()] || in.pkgInited[g.Pkg] || in.cur == nil {
